@@ -119,8 +119,10 @@ Declared(op, calls, jobid, uriV) ==
 (* ------------- C09: order of the first attributes on the wire ---------- *)
 (* names = attribute names of the first group in wire order *)
 InNames(n, names) == \E i \in 1..Len(names) : names[i] = n
+IsLater(n) == n \in {"LATER:" \o N_puri, "LATER:" \o N_juri, "LATER:" \o N_jobid}
 HeaderOrderOK(firstTag, names) ==
   /\ firstTag = 1
+  /\ \A i \in 1..Len(names) : ~IsLater(names[i])      \* no operation target in a later operation group
   /\ Len(names) >= 2 /\ names[1] = N_charset /\ names[2] = N_lang
   /\ (InNames(N_puri, names) => (Len(names) >= 3 /\ names[3] = N_puri))
   /\ ((InNames(N_juri, names) /\ ~InNames(N_puri, names)) => (Len(names) >= 3 /\ names[3] = N_juri))
